@@ -73,7 +73,11 @@ structure CtxOk (ctx : Model.Context) : Prop where
   tx : ctx.Transaction.entries = []
   pw : ∀ r, GoMap.get1 ctx.PendingWriteRegisters r = 0
 
-theorem new_ok : ∃ u, Model.Mmu.new cfg = .ok u ∧ u.l1d.lines = [] := ⟨_, rfl, by decide⟩
+theorem new_ok : ∃ u, Model.Mmu.new cfg = .ok u ∧ MmuOk u := by
+  have h : ∃ u, Model.Mmu.new cfg = .ok u ∧ u.l1d.lines = [] ∧ u.l1i.lines = [] ∧ u.l1i.lineLength = 64 :=
+    ⟨_, rfl, by decide, by decide, by decide⟩
+  obtain ⟨u, h1, h2, h3, h4⟩ := h
+  exact ⟨u, h1, h2, ⟨h4, by rw [h3]; intro l hl; cases hl⟩⟩
 
 theorem init_relG (app : App) (ctx : Model.Context) (hc : CtxOk ctx) (eu wu : Nat) (hk : eu = wu)
     (hsid : ctx.sequenceID = 0 ∨ NoCond app) :
